@@ -150,7 +150,7 @@ func H_CloseInCallback() {
 	vrt.Assume(e == nil)
 
 	which := vrt.Pick("closes", 0, 2) // 0: the resolving scope, 1: its parent, 2: the provider
-	op := vrt.Pick("op", 0, 3)         // 0/1: resolve in s2; 2: create a child of s2; 3: create a scope of the provider
+	op := vrt.Pick("op", 0, 3)        // 0/1: resolve in s2; 2: create a child of s2; 3: create a scope of the provider
 	fired := false
 	kit.OnCtor = func(slot int) {
 		if fired || (op >= 2) != (slot == 1) {
